@@ -58,8 +58,8 @@ func (S) Info() scen.Info {
 			"datamodel, node/basicnode, node/bindnode, node/gendemo, codec/dagcbor, codec/dagjson, traversal (walk, focus, transforms), traversal/selector, linking, memstore": "real",
 			"goroutine scheduling": "stub: seeded one-at-a-time scheduler; yields between operations, between reader chunks, inside visitor and transform callbacks",
 		},
-		QuickUnits: 24000, ThoroughUnits: 3000000, QuickSecs: 40, ThoroughSecs: 1200,
-		ProbeKeys: []string{"probe.reset_producer", "probe.assign_then_reset", "probe.copy_and_extend", "probe.largebytes_interleaved", "probe.two_readers_same_node", "probe.subset_match_bytes", "probe.subset_match_string", "probe.focused_transform", "probe.walk_transform", "probe.abandoned_builder", "probe.typed_node_in_pool", "probe.stream_bytes_node", "probe.callback_interleaved", "probe.loaded_node_in_pool", "probe.load_while_holding_loaded_nodes", "probe.iterator_nodes_retained", "probe.lookup_result_retained", "probe.extended_after_assign", "probe.stream_reader_unusual_but_legal"},
+		QuickUnits: 24000, ThoroughUnits: 3000000, QuickSecs: 240, ThoroughSecs: 1200,
+		ProbeKeys: []string{"probe.reset_producer", "probe.assign_then_reset", "probe.copy_and_extend", "probe.largebytes_interleaved", "probe.two_readers_same_node", "probe.subset_match_bytes", "probe.subset_match_string", "probe.focused_transform", "probe.walk_transform", "probe.abandoned_builder", "probe.typed_node_in_pool", "probe.stream_bytes_node", "probe.callback_interleaved", "probe.loaded_node_in_pool", "probe.load_while_holding_loaded_nodes", "probe.iterator_nodes_retained", "probe.lookup_result_retained", "probe.extended_after_assign", "probe.stream_reader_unusual_but_legal", "probe.stream_read_fault_fired"},
 		EventsKey: "events",
 	}
 }
@@ -421,7 +421,7 @@ func (w *world) spawn(k int) {
 		var rs io.ReadSeeker = bytes.NewReader(b)
 		origin := "bytes-from-reader"
 		if style := t.Choice(4, "stream.style"); style > 0 {
-			sr := &styledReader{b: b, eofWithData: style&1 != 0}
+			sr := &styledReader{b: b, eofWithData: style&1 != 0, failAt: -1}
 			if style&2 != 0 {
 				sr.maxRead = 1 + t.Choice(16, "stream.maxread")
 			}
@@ -429,7 +429,25 @@ func (w *world) spawn(k int) {
 			origin = fmt.Sprintf("bytes-from-reader(eofWithData=%v,maxRead=%d)", sr.eofWithData, sr.maxRead)
 			w.st.Inc("probe.stream_reader_unusual_but_legal")
 		}
-		w.add(basicnode.NewBytesFromReader(rs), model.BytesV(b), origin, nil)
+		n := basicnode.NewBytesFromReader(rs)
+		if sr, ok := rs.(*styledReader); ok && t.Pct(40, "stream.fault") {
+			// the caller's stream fails ONCE, at a seeded position, during the first read of the node; the
+			// fault is transient, so every later read must deliver the whole content (or an error, never a
+			// silently shortened value)
+			sr.failAt = int64(t.Choice(len(b)+1, "stream.fault.at"))
+			var fb []byte
+			var ferr error
+			pan := safe(func() { fb, ferr = n.AsBytes() })
+			sr.failAt = -1
+			if sr.failed {
+				w.st.Inc("probe.stream_read_fault_fired")
+				origin += "+transient-read-fault-at-first-read"
+				if pan == "" && ferr == nil {
+					w.o.Fail("read-fault-swallowed", "bytes-from-reader", "the stream of a stream-backed bytes node failed during AsBytes, which returned %d of %d bytes and a nil error", len(fb), len(b))
+				}
+			}
+		}
+		w.add(n, model.BytesV(b), origin, nil)
 		w.st.Inc("probe.stream_bytes_node")
 	case 9: // bindnode typed map, with a repeated key if the builder lets it through
 		np := bindnode.Prototype((*TMap)(nil), ts.TypeByName("TMap"))
@@ -1005,7 +1023,11 @@ type styledReader struct {
 	pos         int64
 	maxRead     int
 	eofWithData bool
+	failAt      int64 // >= 0: a Read that would cross this position fails there (armed by the harness, one-shot)
+	failed      bool
 }
+
+var errStreamFault = fmt.Errorf("injected stream read fault")
 
 func (r *styledReader) Read(p []byte) (int, error) {
 	if r.pos >= int64(len(r.b)) {
@@ -1013,6 +1035,12 @@ func (r *styledReader) Read(p []byte) (int, error) {
 	}
 	if r.maxRead > 0 && len(p) > r.maxRead {
 		p = p[:r.maxRead]
+	}
+	if r.failAt >= 0 && r.pos <= r.failAt && r.pos+int64(len(p)) > r.failAt {
+		n := copy(p[:r.failAt-r.pos], r.b[r.pos:])
+		r.pos += int64(n)
+		r.failAt, r.failed = -1, true
+		return n, errStreamFault
 	}
 	n := copy(p, r.b[r.pos:])
 	r.pos += int64(n)
